@@ -1,3 +1,4 @@
+from io import TextIOWrapper
 class ZipFileLineReader(object):
     def __init__(self, zip_archive, zip_target):
         self._zip_archive = zip_archive
@@ -5,6 +6,7 @@ class ZipFileLineReader(object):
 
     def read_lines(self):
         with self._zip_archive.open(self._zip_target, "r") as in_stream:
-            for a_line in in_stream:
-                yield a_line.decode("utf-8")
+            # decoded as text so that lines end where they do in an uncompressed file ('\n', '\r\n' or '\r')
+            for a_line in TextIOWrapper(in_stream, encoding="utf-8"):
+                yield a_line
 
